@@ -4,7 +4,7 @@ add("C01", "exploration",
     "Trusts the reference map, the independent decoder/hash re-implementation (cross-checked against pogreb's on every slot) and that pinning the hash seed through the verif hook does not change behaviour otherwise. Single goroutine.",
     "DESIGN.md 4/C01")
 add("C02", "exploration",
-    "runtime monitor: reference-map differential across clean Close/Open cycles, recovery-event hook, index geometry comparison, OS<->OSMMap alternation",
+    "runtime monitor: reference-map differential across clean Close/Open cycles, recovery-event hook, index geometry comparison, OS<->OSMMap alternation, random/boundary hash seeds, single-call fault injection into Close",
     "Generated multi-session programs (C01's generator plus restarts at PRNG positions, after compactions, on empty databases); after every clean restart the recovery hook must stay silent, the lock file must be gone, the full read-back and the structural index walk must equal the reference and the index geometry must equal the one before Close; idle Open+Close cycles must leave the segment files byte-identical; real directories alternate between fs.OS and fs.OSMMap.",
     "Trusts the reference map and the verif 'recover' event hook. Held on the sessions listed in the evidence.",
     "DESIGN.md 4/C02")
@@ -14,7 +14,7 @@ add("C03", "fault_enumeration",
     "Fault model exactly as stated in the property (completed calls applied, in-flight data write torn at 512-aligned offsets, atomic directory operations). Trusts CrashFS (cross-validated against fs.OS in C17) and the reference map.",
     "DESIGN.md 4/C03")
 add("C06", "fault_enumeration",
-    "fault enumeration at runtime: power-loss images (per-inode surviving prefixes of unsynced operations) at every FS-call boundary of recorded executions, recovered by the real Open; per-key oracle 'synced value or a later write'",
+    "fault enumeration at runtime: power-loss images (per-inode surviving prefixes of unsynced operations) at every FS-call boundary of recorded executions, recovered by the real Open; per-key oracle 'synced value or a later write'; fsync failures injected into Sync",
     "Histories in both sync modes with rollover, compaction (with writers slipped into its lock-free windows through the verif yield hook), clean restarts and a second epoch after a recovery; at every FS-call boundary a family of admissible power-loss images (minimal, maximal, single-inode loses/keeps, PRNG prefixes with tears) is recovered by the real code and every key must hold its last-synced value or a later write.",
     "Power-loss model exactly as stated in the property. fs.File.Sync is taken to be fsync. Image family per boundary is a fixed adversarial subset plus PRNG samples, not all prefix combinations.",
     "DESIGN.md 4/C06")
@@ -24,12 +24,12 @@ add("C04", "fault_enumeration",
     "Process-crash model of C03 applied repeatedly. The state read back after a recovery is treated as acknowledged from then on. Breadth is PRNG-sampled; the inside-recovery enumeration is exhaustive per selected image.",
     "DESIGN.md 4/C04")
 add("C05", "fault_enumeration",
-    "runtime monitor + fault enumeration: writers placed deterministically inside compaction's lock-free windows via the verif yield hook, live reference-map read-backs after every call, crash-image enumeration of every FS call inside Compact",
+    "runtime monitor + fault enumeration: writers placed deterministically inside compaction's lock-free windows via the verif yield hook, live reference-map read-backs after every call, crash-image enumeration of every FS call inside Compact, failing reads injected into compactions, segment-counter invariant after every Open",
     "Compaction-heavy histories in which the harness itself performs Put/Delete/nested Compact/read-backs at compaction's yield points (after the pick, after sealing, between any two records, before removal of the source); every read is compared with the acknowledged writes, and every crash point inside each Compact (including inside the writers slipped into it) plus every later call boundary is recovered and compared with the reference state before/after the innermost call in flight. Key classes hit by window writes (record still in the source, already promoted, elsewhere, absent) are measured.",
     "A callback at a yield point where compaction holds no lock stands for another goroutine scheduled there (real-goroutine interleavings are C07/C10). Process-crash model of C03.",
     "DESIGN.md 4/C05")
 add("C09", "fault_enumeration",
-    "fault enumeration at runtime: power-loss images from the return of Close through every FS call of the next Open, recovered by the real Open; oracle = exactly the closed contents",
+    "fault enumeration at runtime: power-loss images from the return of Close through every FS call of the next Open, recovered by the real Open; oracle = exactly the closed contents; single-call fault injection into Close followed by power loss",
     "Histories with several clean Close/Open cycles (after growth, chains, rollover, compaction, recovery, on empty databases, idle sessions; both sync modes); for each Close the admissible power-loss images at the instant Close returned and at every file-system-call boundary of the following Open are opened by the real code and must read back exactly the closed contents.",
     "Power-loss model of the property. fs.File.Sync is taken to be fsync.",
     "DESIGN.md 4/C09")
@@ -74,7 +74,7 @@ add("C11", "exploration",
     "Inserts per scan are capped (termination under unbounded growth is not claimed). Real-goroutine cases cover only the interleavings the scheduler produced.",
     "DESIGN.md 4/C11")
 add("C13", "exploration",
-    "stateless schedule exploration (DFS) of the real Open/Close lock code against the real kernel flock, stepping participants at verif yield hooks between system calls; holder-count monitor; session-chain monitor with the recovery-event hook",
+    "stateless schedule exploration (DFS) of the real Open/Close lock code against the real kernel flock, stepping participants at verif yield hooks between system calls; holder-count monitor; session-chain monitor with the recovery-event hook; failed-Open fault injection; concurrent Opens behind a spin barrier",
     "Every interleaving, at system-call granularity, of A:Close[,Open] / B:Open[,Close] / C:Open is executed against the real file system and flock (2 participants exhaustively in the quick tier, 3 participants sampled by subtree in quick and exhaustively in thorough); at no step may two handles be open, failed Opens must return 'locked', acknowledged writes must survive. All 32 clean/unclean 5-session chains per file system check that recovery runs exactly after unclean ends and that a rejected competing Open leaves the directory byte-identical.",
     "flock semantics between open file descriptions of one process equal those between processes. More than three concurrent openers and non-unix lock implementations are not explored.",
     "DESIGN.md 4/C13")
